@@ -1224,6 +1224,10 @@ func SelectExpr(query *Query, current Map, expr *sqlparser.SelectExprs, opts ...
 		case *sqlparser.StarExpr:
 			{
 				for key, value := range current {
+					// a CTE that has not been evaluated is not part of the row
+					if _, ok := value.(CteEvaluation); ok {
+						continue
+					}
 					query.postProcessors = append(query.postProcessors, func() error {
 						delete(data, "<-")
 						return nil
